@@ -9,10 +9,14 @@ import torch
 from torch import sigmoid, Tensor
 from torch.nn import Module
 
-from ..utils.transforms import _get_inv_param_transform, inv_sigmoid, inv_softplus
+from ..utils.transforms import _get_inv_param_transform, inv_sigmoid, inv_softplus, TRANSFORM_REGISTRY
 
 # define softplus here instead of using torch.nn.functional.softplus because the functional version can't be pickled
 softplus = torch.nn.Softplus()
+
+
+# the inverses the constructors use by default, with the transform each of them inverts
+_DEFAULT_TRANSFORMS = {inv_sigmoid: sigmoid, inv_softplus: softplus}
 
 
 class Interval(Module):
@@ -51,6 +55,12 @@ class Interval(Module):
 
         if transform is not None and inv_transform is None:
             self._inv_transform = _get_inv_param_transform(transform)
+        elif transform is not None and inv_transform in _DEFAULT_TRANSFORMS:
+            # the default inverses belong to the default transforms: another transform gets its own inverse
+            if transform in TRANSFORM_REGISTRY:
+                self._inv_transform = TRANSFORM_REGISTRY[transform]
+            elif transform is not _DEFAULT_TRANSFORMS[inv_transform]:
+                raise RuntimeError("Must specify inv_transform for custom transforms")
 
         if initial_value is not None:
             self._initial_value = self.inverse_transform(torch.as_tensor(initial_value))
